@@ -2,6 +2,7 @@ import subprocess, sys, re, os, shutil
 p='/verif/contracts/valid.vi'
 orig=open(p).read()
 names=re.findall(r'^pub proof fn (\w+)', orig, re.M)
+if len(sys.argv) > 1: names=[n for n in names if n in sys.argv[1:]]
 bad=[]
 try:
     for nm in names:
